@@ -1961,3 +1961,70 @@ def _slice_ends_with(ex, c):
     if not b.items:
         return Bool(True)
     return Bool(z3.And([x.t == y.t for x, y in zip(a.items[len(a.items) - len(b.items):], b.items)]))
+
+
+# ------------------------------------------------------------------ more integer methods (so that a changed arithmetic idiom is still decided)
+def _shift_amount(a, n):
+    w = a.width
+    nn = z3.ZeroExt(w - n.width, n.t) if w > n.width else z3.Extract(w - 1, 0, n.t)
+    return nn & z3.BitVecVal(w - 1, w)        # wrapping_sh*: the amount is taken modulo the bit width
+
+
+@summary("core::num::wrapping_shl")
+def _wshl(ex, c):
+    a, n = c.args
+    return BV(a.t << _shift_amount(a, n), a.signed)
+
+
+@summary("core::num::wrapping_shr")
+def _wshr(ex, c):
+    a, n = c.args
+    amt = _shift_amount(a, n)
+    return BV(a.t >> amt if a.signed else z3.LShR(a.t, amt), a.signed)
+
+
+@summary("core::num::wrapping_mul")
+def _wmul(ex, c):
+    return BV(c.args[0].t * c.args[1].t, c.args[0].signed)
+
+
+@summary("core::num::abs_diff")
+def _abs_diff(ex, c):
+    a, b = c.args
+    lt = (a.t < b.t) if a.signed else z3.ULT(a.t, b.t)
+    return BV(z3.If(lt, b.t - a.t, a.t - b.t), False)
+
+
+@summary("core::num::checked_div")
+def _cdiv(ex, c):
+    a, b = c.args
+    if a.signed:
+        raise Unsupported("signed checked_div")
+    if ex.branch(b.t == 0):
+        return NONE()
+    return some(BV(z3.UDiv(a.t, b.t), False))
+
+
+@summary("core::num::checked_rem")
+def _crem(ex, c):
+    a, b = c.args
+    if a.signed:
+        raise Unsupported("signed checked_rem")
+    if ex.branch(b.t == 0):
+        return NONE()
+    return some(BV(z3.URem(a.t, b.t), False))
+
+
+@summary("core::num::max", "core::cmp::Ord::max", "<u8 as Ord>::max", "<u16 as Ord>::max", "<u32 as Ord>::max", "<u64 as Ord>::max", "<usize as Ord>::max")
+def _int_max(ex, c):
+    a, b = c.args
+    if not (isinstance(a, BV) and isinstance(b, BV)):
+        raise Unsupported("max of non-integers")
+    ge = (a.t >= b.t) if a.signed else z3.UGE(a.t, b.t)
+    return BV(z3.If(ge, a.t, b.t), a.signed)
+
+
+@summary("core::num::is_power_of_two")
+def _is_pow2(ex, c):
+    a = c.args[0]
+    return Bool(z3.And(a.t != 0, (a.t & (a.t - 1)) == 0))
